@@ -15,3 +15,8 @@ claim('C14', 'proof',
       "contract-based deductive verification (symbolic execution of the real constructors and methods, element-level VCs, z3 nlsat on purified identities), native replay",
       "DESIGN.md 4/C14")
 # (claims for C04/C05/C10/C16 are added when their contracts are complete)
+claim('C02', 'proof',
+      "integrateFuncJac is proved, for every method, full_output and includeOrigin setting and any number of requested times, to return one OWNED row per requested time in order (preceded by x0 when asked), each equal at return time to the state the integrator reached at that time; re-created integrators are proved to restart on the trajectory; method names are proved to select the right scipy integrator with the module tolerances; integrate, integrate2, solve_determ, ode_T, jacobian_T are proved to hand the right callables, initial value, origin and grid to the wrappers; compiled Jacobians are proved to have rank 2 for every model size.",
+      "ASSUMED, not proved: scipy.integrate.ode / odeint started on the trajectory reach the exact solution at the requested time (accuracy within atol=rtol=1e-10 and the semigroup law); `r.y` is a reference to the integrator's buffer. The accuracy clause of the property rests on this assumption; the stand-in compares with closed-form flows at 1e-6. Real arithmetic; termination not proved.",
+      "contract-based deductive verification (loop invariant with buffer ownership over the real stepping loop, wiring VCs), native replay against closed-form flows",
+      "DESIGN.md 4/C02")
